@@ -1483,6 +1483,9 @@ class ElectrumX(SessionBase):
         '''
         tx_hash = assert_tx_hash(tx_hash)
         height = non_negative_integer(height)
+        if target_type not in ('block_hash', 'block_header', 'merkle_root'):
+            raise RPCError(BAD_REQUEST, '"target_type" must be one of "block_hash", '
+                           '"block_header" or "merkle_root"')
 
         tsc_proof, cost = await self.session_mgr.tsc_merkle_proof_for_tx_hash(
             height, tx_hash, txid_or_tx, target_type)
